@@ -250,16 +250,33 @@ def real_pool_smoke(c, rng, n):
                 fl = 'returned'
             except BaseException as ex:
                 fl = 'raised ' + repr(ex)
+            # work handed over after closing (a thread that still runs the agent after shutdown): refused visibly, and
+            # neither dropped silently nor sent from the calling thread
+            plan.append('ok')
+            nsent = len(sent)
+            try:
+                ps.push_snapshot(Snap(k))
+                late = 'accepted silently'
+            except BaseException as ex:
+                late = 'refused'
+            import time as _t
+            t0 = _t.time()
+            while th._pending and _t.time() - t0 < 2:       # the done-callbacks run a moment after the waiters wake
+                _t.sleep(0.005)
+            late_sent = [t for i, t in sent[nsent:]]
         finally:
             push_mod.convert_snapshot = orig_convert
             th._pool.shutdown(wait=True)
         c.traces_validated += 1
         c.note_case(key=('real-pool', tuple(plan)), nontrivial=any(p != 'ok' for p in plan))
-        exp = sorted(i for i, p in enumerate(plan) if p in ('ok', 'rpc_error'))
-        got = sorted(i for i, _ in sent)
+        exp = sorted(i for i, p in enumerate(plan[:k]) if p in ('ok', 'rpc_error'))
+        got = sorted(i for i, _ in sent if i < k)
         bad = None
         if fl != 'returned':
             bad = 'flush %s' % fl
+        elif late != 'refused' or late_sent:
+            bad = 'a snapshot handed over after flush was %s and sent %d time(s)%s' % (
+                late, len(late_sent), ' on the application thread' if main in late_sent else '')
         elif got != exp:
             bad = 'sent %s expected %s' % (got, exp)
         elif any(t == main for _, t in sent):
